@@ -183,7 +183,10 @@ MsgVerdict(r) ==
          ELSE IF r.msg # d.msg THEN "decoded_message_differs" ELSE IF r.rest # d.rest THEN "rest_differs" ELSE ""
     [] r.op = "dgram" ->    \* r.input, r.msgs (as delivered to message_received)
          IF r.out # "ok" THEN "datagram_received_raised"
-         ELSE IF r.msgs # DecAll(r.input).msgs THEN "delivered_messages_differ" ELSE ""
+         ELSE IF r.msgs # DecAll(r.input).msgs THEN "delivered_messages_differ"
+         \* (a datagram the library itself put together from several messages: it is the concatenation of their encodings)
+         ELSE IF "sent" \in DOMAIN r /\ (r.sent # r.msgs \/ DecAll(r.input).err # "") THEN "datagram_is_not_the_concatenation_of_its_messages"
+         ELSE ""
 
 \* C02 ---------------------------------------------------------------------------------------
 SDBuildVerdict(r) ==        \* r.msg (resolved), r.out, r.bytes, r.fits (every numeric field of the original inside its width),
